@@ -446,7 +446,10 @@ func TestVerif_C27(t *testing.T) {
 	schemes := []string{"http", "https", "HTTP", "ftp"}
 	users := []string{"", "u@", "u:p@", "u%40:p@"}
 	hosts := []string{"example.com", "EXAMPLE.COM", "127.0.0.1", "[::1]", "[fe80::1%25eth0]", "%41.com", "h%25x",
-		"a%2fb", "a%23b", "a%3fb", "a%40b", "a%3ab", "a%2Fb"} // escapes that decode to URI delimiters inside the host
+		"a%2fb", "a%23b", "a%3fb", "a%40b", "a%3ab", "a%2Fb", // escapes that decode to URI delimiters inside the host
+		// upper / mixed case for every host kind (the port slot adds the with-port forms)
+		"Example.Com", "[::FFFF:127.0.0.1]", "[::ffff:127.0.0.1]", "[2001:DB8::ABCD]", "[2001:db8::AbCd]",
+		"[FE80::ABCD%25En0]", "[fe80::abcd%25EN0]", "[FE80::1%25eth0]"}
 	ports := []string{"", ":80", ":8080", ":"}
 	paths := []string{"", "/", "/a/b", "/a%20b", "/a/../b", "//a", "/%2e", "/a%3Fb%23c"} // last one: added to the assigned list (decoded path holds '?' and '#')
 	queries := []string{"", "?", "?a=1", "?a=1&a=2", "?a=%20+&b", "?=&", "?a=b=c"}
